@@ -40,7 +40,7 @@ def subst(v, binding):
     return v
 
 
-def gen_case(rng):
+def gen_case1(rng):
     r = rng.random()
     if r < 0.55:
         # document-level repeat with an independent expectation
@@ -103,6 +103,14 @@ def gen_case(rng):
         return chain_case(layers, env={}, tail=("outdocs",))
     doc = gen.eval_doc(rng, W, depth=rng.randint(2, 3), nfeat=(1, 3))
     return chain_case([doc], env=gen.ENV, tail=("outdocs",))
+
+
+def gen_case(rng):
+    c = gen_case1(rng)
+    if rng.random() < 0.25:
+        # the same parser asked for its output a second time: the expansion is the same again (the first evaluation works on a copy)
+        c["steps"] = c["steps"] + [{"outdocs": True}]
+    return c
 
 
 def oracle(case, go, mo):
